@@ -55,7 +55,18 @@ def check(ck):
     hs = [h for h in g.live_nodes() if h.kind == "handler"]
     ck.require(len(hs) == 1, "C19.1", "%s: one handler" % q.fn(fs), "single catch-all handler", "found %d handlers" % len(hs), q.loc(fs, fs.node))
     for h in hs:
-        closes = [n for n in g.live_nodes() for c in node_calls(n) if dump(c.func) == "self.close" and any(sub is n.ast for st_ in h.ast.body for sub in ast.walk(st_))]
+        def _is_close(c):
+            # self.close(), or - when a new override of close() has been expanded in place - the base implementation it delegates to
+            f = c.func
+            if dump(f) == "self.close":
+                return True
+            if isinstance(f, ast.Attribute) and f.attr == "close":
+                if isinstance(f.value, ast.Call) and isinstance(f.value.func, ast.Name) and f.value.func.id == "super":
+                    return True
+                if c.args and isinstance(c.args[0], ast.Name) and c.args[0].id == "self" and isinstance(f.value, (ast.Name, ast.Attribute)):
+                    return True
+            return False
+        closes = [n for n in g.live_nodes() for c in node_calls(n) if _is_close(c) and any(sub is n.ast for st_ in h.ast.body for sub in ast.walk(st_))]
         rer = [n for n in g.live_nodes() if n.kind == "raise" and n.ast.exc is None and any(sub is n.ast for st_ in h.ast.body for sub in ast.walk(st_))]
         ck.require(len(closes) == 1 and len(rer) == 1 and closes[0].id in d[rer[0].id], "C19.1", "%s: handler closes then re-raises" % q.fn(fs),
                    "self.close() dominates the re-raise", "the handler does not call self.close() on every path before re-raising", q.loc(fs, h))
